@@ -196,6 +196,10 @@ Section History.
     | Err e => Err e
     end.
 
+  (* _append_zeros_if_too_small: every column is extended with zeros up to m points *)
+  Definition grow (cols : list (list Z)) (m : nat) : list (list Z) :=
+    map (fun c => c ++ repeat 0 (m - length c)) cols.
+
   Definition alloc (s : st) (a : arr3) : st * nat :=
     (mkst (heap s ++ [a]) (h_s s) (h_o s) (r_s s) (r_o s) (ints s), length (heap s)).
 
@@ -232,8 +236,9 @@ Section History.
     | HMutateO a v =>
         (mkst (set_at (heap s) (h_o s) (set_at (get (heap s) (h_o s)) a v)) (h_s s) (h_o s) (r_s s) (r_o s) (ints s), ONone)
     | Assign a vals =>
-        (* self.points.offsets = self.header.offsets; self.points.scales = self.header.scales; self.points[key] = value *)
-        assign_rec (mkst (heap s) (h_s s) (h_o s) (h_s s) (h_o s) (ints s)) a vals
+        (* self.points.offsets = self.header.offsets; self.points.scales = self.header.scales; self.points[key] = value;
+           PackedPointRecord.__setitem__ first appends zero points when the value is longer than the record *)
+        assign_rec (mkst (heap s) (h_s s) (h_o s) (h_s s) (h_o s) (grow (ints s) (length vals))) a vals
     | RecAssign a vals => assign_rec s a vals
     | ChangeScaling ns no =>
         (* points.change_scaling(scales, offsets): None means the record's own array; the header takes the new arrays *)
